@@ -81,6 +81,9 @@ func strsJSON(ss []string, prefix string) string {
 const akaPrefix = "https://aka.example.com/"
 
 func concretePatch(p absPatch) (patch.Patch, error) {
+	// TLC emits sets in arbitrary order; a fixed order keeps the position of the absent id deterministic
+	// (removeKeys {a, z}: the present id first; removeSvcs {q, s}: the absent id first)
+	sort.Strings(p.Ids)
 	switch p.A {
 	case "addKeys":
 		return patch.NewAddPublicKeysPatch(listJSON(p.Entries, keyJSON))
